@@ -104,7 +104,14 @@ func (c *c10cLost) step(op string) bool {
 		}
 	}
 	f := strings.Fields(op)
+	released := uint64(0)
 	switch f[0] {
+	case "rel":
+		// ReleasePhysicalPage: a page that was kept (migration) goes back to its device
+		released, _ = strconv.ParseUint(f[1], 16, 64)
+		if c.lost[released] && free[released] > 0 {
+			c.k--
+		}
 	case "mig", "apg":
 		// AllocatePageWithGivenVAddr / page migration keep the replaced page out of circulation on purpose
 		// (the page migration controller still reads it)
@@ -139,7 +146,7 @@ func (c *c10cLost) step(op string) bool {
 			c.fail("C10.conserve.lost_without_rehome", "pages %s are neither free nor mapped although no migration / AllocatePageWithGivenVAddr was executed and one process owns every page (Remap and Distribute must give the page they replace back)", strings.Join(lost, ","))
 		default:
 			for p := range c.lost {
-				if !now[p] {
+				if !now[p] && p != released {
 					c.fail("C10.conserve.recovered", "physical page %x was neither free nor mapped and is in circulation again", p)
 					break
 				}
@@ -233,28 +240,35 @@ func c10cLeakWitness(r *Run) {
 	}
 }
 
-// page migration keeps the replaced page out of circulation (NOT repaired, listed finding
-// C10.conserve.leak.migration_oom): two GPUs of 2 pages, one page migrated to and fro — every
-// preparePageForMigration takes a fresh page on the target and the page it replaces is never given back (the page
-// migration controller still reads it when the call returns, and nothing releases it when the copy is done): the
-// fourth migration finds the target GPU exhausted with ONE page mapped on the whole system.
+// page migration gives the replaced page back when it is complete (REPAIRED finding
+// C10.conserve.leak.migration_oom, regression oracle): two GPUs of 2 pages, one page migrated to and fro. Every
+// preparePageForMigration takes a fresh page on the target; the page it replaces stays out of circulation while
+// the page migration controller reads it and goes back to its device when the driver handles the page's
+// PageMigrationRspToDriver (MemoryAllocator.ReleasePhysicalPage, here the op `rel <old frame>` — the driver-side
+// discipline is C19's subject). Before the repair nothing gave it back: the fourth migration found the target GPU
+// exhausted with ONE page mapped on the whole system. Now eight migrations in a row succeed and nothing is lost.
 func c10cMigLeakWitness(r *Run) {
 	c := c10cNewLost(r, 12, 1, []int{2, 2})
-	ok := true
-	for _, op := range []string{"init", "alloc 0 1000", "mig 0 1000 1", "mig 0 1000 0", "mig 0 1000 1", "mig 0 1000 0"} {
-		if ok = c.step(op); !ok {
+	ok := c.step("init") && c.step("alloc 0 1000")
+	for i := 0; i < 8 && ok; i++ {
+		if ok = c.step(fmt.Sprintf("mig 0 1000 %d", (i+1)%2)); !ok {
 			break
 		}
+		// "=<new frame>/<old frame>": the driver remembers the old frame and releases it at the acknowledgement
+		parts := strings.Split(strings.TrimPrefix(c.lastOut, "="), "/")
+		if len(parts) != 2 {
+			ok = false
+			break
+		}
+		ok = c.step("rel " + parts[1])
 	}
 	c.finish()
 	mapped := len(c.s.entries())
 	r.Checked("conserve.mig_leak_witness")
-	if !ok && c.lastOut == "fault:oom" && mapped == 1 {
+	if !ok || mapped != 1 || len(c.lost) != 0 {
 		r.Failf("C10.conserve.leak.migration_oom", c.line(),
-			"a 1-page buffer migrated between two 2-page GPUs: the fourth migration panics `out of memory` with %d page mapped and %d pages neither free nor mapped (preparePageForMigration / AllocatePageWithGivenVAddr never give the replaced page back, not even when the migration is complete)",
-			mapped, len(c.lost))
-	} else {
-		r.Note("C10 migration leak witness no longer reproduces: ok=%v out=%s mapped=%d lost=%d", ok, c.lastOut, mapped, len(c.lost))
+			"a 1-page buffer migrated to and fro between two 2-page GPUs, the old frame released after every migration: ok=%v out=%s, %d page mapped, %d pages neither free nor mapped (regression of the repaired finding C10-migration-keeps-replaced-page: a completed migration must give the replaced page back)",
+			ok, c.lastOut, mapped, len(c.lost))
 	}
 }
 
